@@ -44,6 +44,15 @@ type c16Custom struct {
 	B string
 }
 
+// values whose own formatting methods panic (a nil receiver dereferenced): fmt copes with them, a direct call does not
+type c16BadErr struct{ cause *c16Custom }
+
+func (e *c16BadErr) Error() string { return "bad error: " + e.cause.B }
+
+type c16BadStr struct{ p *c16Custom }
+
+func (s c16BadStr) String() string { return "bad stringer: " + s.p.B }
+
 type c16Rec struct {
 	val  interface{}
 	line *client.Line
@@ -99,7 +108,7 @@ func runC16(c *Ctx) {
 		}
 		plan := map[int]throwPlan{}
 		nPanics := 3 + r.Intn(12)
-		vkinds := []string{"string", "error", "struct", "runtime", "nil"}
+		vkinds := []string{"string", "error", "struct", "runtime", "nil", "bad-error", "bad-stringer"}
 		for k := 0; k < nPanics; k++ {
 			plan[r.Intn(nEvents)] = throwPlan{[]string{"fg", "bg", "builtin"}[r.Intn(3)], vkinds[r.Intn(len(vkinds))]}
 		}
@@ -117,6 +126,11 @@ func runC16(c *Ctx) {
 				m["boom"] = n
 			case "nil":
 				panic(nil)
+			case "bad-error":
+				var e *c16BadErr
+				panic(error(e))
+			case "bad-stringer":
+				panic(c16BadStr{})
 			}
 		}
 		victim := func(kind string) client.HandlerFunc {
@@ -253,12 +267,16 @@ func runC16(c *Ctx) {
 							}
 						case error:
 							// errVal, a runtime error or PanicNilError
+							if _, bad := v.(*c16BadErr); bad {
+								break
+							}
 							if v != errVal && !strings.Contains(v.Error(), "nil map") && !strings.Contains(v.Error(), "index out of range") && !strings.Contains(reflect.TypeOf(v).String(), "PanicNilError") {
 								fail("recover-value", fmt.Sprintf("unexpected recovered error %v", v))
 								return false
 							}
+						case c16BadStr:
 						default:
-							fail("recover-value", fmt.Sprintf("unexpected recovered value %#v", g.val))
+							fail("recover-value", fmt.Sprintf("unexpected recovered value %T", g.val))
 							return false
 						}
 					}
@@ -316,8 +334,24 @@ func runC16(c *Ctx) {
 				c.R.Sample(map[string]interface{}{"events": nEvents, "fg": nFg, "bg": nBg, "parked_bg_handlers": nParked, "custom_recovery": custom, "panics": thrown, "procs": procs})
 			}
 		}
-		close(release)
-		go s.Conn.Close()
+		if ok && nParked > 0 {
+			// the connection ends while background handlers are still parked: DISCONNECTED is an event like any other
+			discDone := make(chan struct{}, 1)
+			s.Conn.HandleFunc(client.DISCONNECTED, func(_ *client.Conn, l *client.Line) { discDone <- struct{}{} })
+			go s.Conn.Close()
+			if !waitCh(chanOf(discDone)) {
+				ds := rig.ProveDead(WaitShort)
+				if ds.Dead {
+					fail("disconnected-blocked-by-parked-bg|"+ds.Signature, "with background handlers parked, DISCONNECTED was never delivered to a foreground handler: dead state "+ds.Signature)
+				} else {
+					c.R.Inconcl(fmt.Sprintf("%s: DISCONNECTED not delivered (%s)", Case("sess", idx), ds.Reason))
+				}
+			}
+			close(release)
+		} else {
+			close(release)
+			go s.Conn.Close()
+		}
 		s.Release()
 		if !ok && c.R.NumViolations() > 5 {
 			return
